@@ -689,6 +689,13 @@ def r3_placement(ctx):
         for st in g.blocks[wbb]["st"]:
             if st["s"] == "assign" and st["pl"]["p"] and isinstance(st["pl"]["p"][-1], dict) and st["pl"]["p"][-1].get("n") == "operation_id":
                 oploc.add(st["pl"]["l"])
+    # ... or the Operation is built by one struct literal `Operation { operation_id: .., ..Default::default() }`
+    for abb, ai, ast in g.aggregates(r"^openapiv3::Operation$"):
+        names = ast["rv"].get("fields") or []
+        if abb in g.reachable(0) and "operation_id" in names and not ast["pl"]["p"]:
+            ids = g.slice(ast["rv"]["ops"][names.index("operation_id")])
+            if not ids.has_call(r"default::Default::default$") or ids.reads_field("operation_id"):
+                oploc.add(ast["pl"]["l"])
     if reps:
         allhit = set()
         for bb, vop, o, hit in reps:
